@@ -357,7 +357,10 @@ func normalizeSpace(ctx *context, args []Datum) (retLit Datum) {
 
 	lit0 := args[0].Literal("normalizeSpace()")
 
-	fields := strings.Fields(lit0)
+	// XPath 1.0 white space is #x20, #x9, #xD and #xA only
+	fields := strings.FieldsFunc(lit0, func(r rune) bool {
+		return r == ' ' || r == '\t' || r == '\r' || r == '\n'
+	})
 	var b bytes.Buffer
 	for _, field := range fields {
 		b.WriteString(field)
